@@ -45,9 +45,12 @@ class C08(Check):
         "E4": "sign preservation: a numeric coefficient is a reactant iff negative, with its absolute value; a computed coefficient is "
               "exported on the side that keeps its value (product)",
         "E5": "operator tables: each entry maps to the MathML node of the same meaning and is listed under its real arity",
+        "E7": "fresh tree per export: the function AST that is renamed in place (NodeTransformer.visit) for one component is parsed "
+              "anew for that call; a memoised (functools.cache / lru_cache / module-level dict) parse would hand the already renamed tree to "
+              "the next component that uses the same function with other arguments",
         "E6": "API existence: every method called on a libsbml object exists on the class its factory returns",
     }
-    floors = {"E1": 8, "E2": 3, "E3": 10, "E4": 2, "E5": 20, "E6": 25}
+    floors = {"E1": 8, "E2": 3, "E3": 10, "E4": 2, "E5": 20, "E6": 25, "E7": 2}
     decided = [
         "an expression construct the exporter cannot represent raises instead of producing a different / unreadable formula",
         "coefficient signs survive; ids are produced by one converter; libsbml is called with methods that exist",
@@ -65,6 +68,7 @@ class C08(Check):
         self.e4(mod)
         self.e5(mod)
         self.e6(mod)
+        self.e7(mod)
 
     # ------------------------------------------------------------------
     def e1(self, mod) -> None:
@@ -312,8 +316,55 @@ class C08(Check):
                                       witness="any model with an initial assignment: sbml.write raises AttributeError")
         self.analysed["libsbml_method_calls_checked"] = n
 
+    def e7(self, mod) -> None:
+        conv = mod.func("_tree_to_sbml")
+        tparam = conv.args.args[0].arg
+        mutates = [c for c in walk_no_nested(conv) if isinstance(c, ast.Call) and isinstance(c.func, ast.Attribute) and c.func.attr == "visit"
+                   and c.args and norm(c.args[0]) == tparam]
+        if not mutates:
+            self.holds("E7", MOD, conv.name, "in-place-rename", conv, "the tree is not transformed in place")
+            return
+        self.holds("E7", MOD, conv.name, "in-place-rename", mutates[0], f"`{norm(mutates[0])}` transforms its argument in place: callers must pass a fresh tree")
+        MEMO = ("cache", "lru_cache", "functools.cache", "functools.lru_cache", "cached", "memoize")
+        for fname, fn in mod.functions.items():
+            for c in walk_no_nested(fn):
+                if isinstance(c, ast.Call) and norm(c.func) == conv.name and c.args:
+                    src = c.args[0]
+                    chain = []
+                    cur = src
+                    while isinstance(cur, ast.Call) and isinstance(cur.func, ast.Name):
+                        chain.append(cur.func.id)
+                        callee = mod.functions.get(cur.func.id)
+                        if callee is None:
+                            # imported helper: look it up in its module
+                            target = mod.imports.get(cur.func.id, "")
+                            rel = "meta/source_tools.py" if "source_tools" in target else None
+                            callee = self.prog.module(rel).functions.get(cur.func.id) if rel else None
+                        if callee is None:
+                            break
+                        memo = [d for d in callee.decorator_list if norm(d).split("(")[0] in MEMO]
+                        if memo:
+                            self.violated("E7", MOD, fname, f"tree-source {norm(src)[:40]}", c,
+                                          f"the tree handed to {conv.name} comes from `{callee.name}`, which is memoised (@{norm(memo[0])}): the in-place argument "
+                                          "renaming of one component leaks into the next component that uses the same function",
+                                          witness="two reactions using fns.mass_action_1s with args ['x','k1'] and ['y','k2']: the second kinetic law is exported with x and k1")
+                            break
+                        # follow a trivial wrapper: `return inner(fn)` / `tree = inner(fn); ...; return tree`
+                        inner = [x for x in walk_no_nested(callee) if isinstance(x, ast.Call) and isinstance(x.func, ast.Name) and x.func.id in ("get_fn_ast",) + tuple(mod.functions)]
+                        cur = inner[0] if inner and inner[0].func.id != callee.name else None
+                    else:
+                        pass
+                    if not any(o.rule == "E7" and o.function == fname and o.verdict == "VIOLATED" for o in self.obs):
+                        if isinstance(src, ast.Call):
+                            self.holds("E7", MOD, fname, f"tree-source {norm(src)[:40]}", c, f"tree produced per call by {' -> '.join(chain) or norm(src)} (not memoised)")
+                        else:
+                            self.undecided_ob("E7", MOD, fname, f"tree-source {norm(src)[:40]}", c, "origin of the tree not a direct call")
+
     def must_fire(self):
         return [
+            Variant("memoised-parse", MOD, "", "def _sbmlify_fn(fn: Callable, user_args: list[str]) -> libsbml.ASTNode:\n    return _tree_to_sbml(get_fn_ast(fn), args=user_args)",
+                    "from functools import cache\n\n@cache\ndef _parse_fn(fn: Callable) -> ast.FunctionDef:\n    tree = get_fn_ast(fn)\n    return tree\n\ndef _sbmlify_fn(fn: Callable, user_args: list[str]) -> libsbml.ASTNode:\n    return _tree_to_sbml(_parse_fn(fn), args=user_args)",
+                    expect="E7|", quick=True),
             Variant("first-link-only", MOD, "_convert_compare",
                     "    links = []\n    left = node.left\n    for op, right in zip(node.ops, node.comparators, strict=True):\n        links.append(_convert_relation(op, _convert_node(left), _convert_node(right)))\n        left = right\n    if len(links) == 1:\n        return links[0]",
                     "    return _convert_relation(node.ops[0], _convert_node(node.left), _convert_node(node.comparators[0]))\n    links = []", expect="E1|", quick=True),
